@@ -283,7 +283,8 @@ def getslice(it, base, lo, hi, step, line=None):
 
 
 def dict_key_ok(k):
-    return is_concrete(k)
+    # callables / type objects are hashable by identity: usable as keys of a concrete dict
+    return is_concrete(k) or isinstance(k, (VBuiltin, VClass, TypeMarker))
 
 
 def dict_load(it, d, k, line=None):
@@ -1762,7 +1763,14 @@ def _quant(it, e, env, universal):
     from .interp import Env
     ctx = it.ctx
     args = e.args
-    lam = _lambda_of(it, args[-1], env)
+    if isinstance(args[-1], ast.Lambda):
+        lam = args[-1]
+    else:
+        fv = it.eval(args[-1], env)
+        if not (isinstance(fv, VFunc) and isinstance(fv.node, ast.Lambda)):
+            raise Unsupported('quantifier body must be a lambda')
+        lam = fv.node
+        env = fv.env if fv.env is not None else env
     names = [a.arg for a in lam.args.args]
     sorts = {'i': z3.IntSort(), 's': z3.StringSort()}
     cenv = Env(parent=env)
@@ -1988,6 +1996,10 @@ def replace_facts(it, term, a, b):
     if-then-else over table entries) the value CPython computes is added as a fact."""
     if not (isinstance(a, str) and isinstance(b, str)):
         return
+    if a and not z3.is_string_value(term):
+        # replacing something that does not occur changes nothing
+        it.ctx.assume(z3.Implies(z3.Not(z3.Contains(term, z3.StringVal(a))),
+                                 py_replace(term, z3.StringVal(a), z3.StringVal(b)) == term))
     lits = set()
     _string_literals(term, lits, set())
     for lit in sorted(lits):
